@@ -115,7 +115,8 @@ def run(prog, cfg, target=None, action='abort', second=None, inline=False,
   CURRENT['log'] = log
   recs = []
   t.add_output_callbacks(lambda r: (log.add('callback', r.outcome.name
-                                            if r.outcome else None),
+                                            if r.outcome else None,
+                                            len(r.log_records)),
                                     recs.append(r)))
   result = {}
 
@@ -243,6 +244,11 @@ def run(prog, cfg, target=None, action='abort', second=None, inline=False,
         info['reached'] = True
       at.join(join_s)
       info['abort_thread_alive'] = at.is_alive()
+    elif target is not None and action == 'hold':
+      # no operator action: the framework thread is merely held for a while
+      act = eng.run_action_at_pause(lambda: time.sleep(0.15), wait_s=wait_s,
+                                    hold_s=0.3)
+      info['reached'] = act['reached']
     elif target is not None and not inline and action:
       act = eng.run_action_at_pause(do_abort, wait_s=wait_s, hold_s=0.25)
       info['reached'], info['blocked'] = act['reached'], act['blocked']
